@@ -2297,6 +2297,21 @@ impl SctpInner {
             self.cumulative_tsn_ack
                 .store(new_cumulative_tsn, Ordering::SeqCst);
 
+            // Fragments of one message carry consecutive TSNs and are processed
+            // in TSN order, so a partially reassembled message was waiting for
+            // exactly the TSN this skip jumps over: it can never complete. Drop
+            // it, or the tail of a later message (whose own B fragment was
+            // skipped too) would be appended to it and delivered as a message
+            // nobody sent.
+            let open_channels: Vec<Arc<DataChannel>> = {
+                let channels = self.data_channels.lock();
+                channels.iter().filter_map(|weak_dc| weak_dc.upgrade()).collect()
+            };
+            for dc in &open_channels {
+                dc.reassembly_buffer.lock().clear();
+            }
+            drop(open_channels);
+
             {
                 let mut received_queue = self.received_queue.lock();
                 // Chunks buffered out of order were charged to the receive
